@@ -218,15 +218,14 @@ pub fn run(_tier: &str) -> i32 {
     };
     isolation(&mut k, &mut viol, "first-boot", &expect_a, &expect_b, &mut checks);
     // cross-tenant writes on a local id only the other tenant holds
-    checks += 3;
+    checks += 1;
     let (c, existed) = k.update(Some(KEY_A1), 4, "hijack");
     if existed {
         v(&mut viol, "C10|server|first-boot|update-reaches-other-tenants-document", format!("acme UpdateMetadata(4) -> {c}, existed=true (only beta holds local id 4)"));
     }
-    let (c, ok) = k.delete(Some(KEY_A1), 4);
-    if ok {
-        v(&mut viol, "C10|server|first-boot|delete-reaches-other-tenants-document", format!("acme Delete(4) -> {c} success"));
-    }
+    // (Delete answers success for an absent document too; whether it reached beta's document is
+    // decided by the views below)
+    let _ = k.delete(Some(KEY_A1), 4);
     let _ = k.batch_delete(Some(KEY_A1), &[4, 5]);
     isolation(&mut k, &mut viol, "after-cross-tenant-writes", &expect_a, &expect_b, &mut checks);
     // ---- (a) key matrix
